@@ -1,10 +1,11 @@
+import os
 ALLW = ['exit path', 'end', 'same pointer redirected again after another one', 'all enabled', 'one enabled among several', 'reset',
         'removed the head', 'removed the second', 'name not in the chain']
 def ob(fn, need, unwind=50, timeout=600, bounds='', **kw):
     d = {'fn': fn, 'unwind': unwind, 'timeout': timeout, 'bounds': bounds, 'diff_runs': 100, 'optional_witness': [w for w in ALLW if w not in need]}
     d.update(kw)
     return d
-KF = '; EXCLUDED (known finding KF_C17_1): removing a plugin at chain depth >= 3 (third from the head or deeper)'
+KF = ''
 EN = 'disable pattern of the plugins symbolic'
 NAMES = ['"a"', '"b"', '"c"', '"d"', '"z" (nobody has it)', 'the empty name (nobody has it)']
 def restore(pre, **kw):
@@ -39,11 +40,11 @@ SPEC = {
         'a redirection beyond the limit leaves the test through PlatformSpecificLongJmp, replaced by a harness hook that checks the postcondition, runs the post action, starts the next test and ends the path; failure-message constructors have empty bodies (C14)',
         'plugin names are the distinct one-letter names a..d; installing one plugin object twice is a usage error and excluded',
         'TestPlugin::removePluginByName is specified for plugins behind the one it is called on (the callee cannot unlink itself)',
-        'known finding KF_C17_1 (removePluginByName cannot remove a plugin at chain depth >= 3) is excluded by ASSUME under -DKF_C17_1; harness_finding_registry_remove_depth3 / harness_finding_plugin_remove_depth3 in h17.c demonstrate it and are not part of the claim',
     ],
     'groups': [{
         'name': 'c17', 'wrapper': 'w17.cpp', 'harness': 'h17.c',
-        'defines': ['-DKF_C17_1'],
+        # C17_NO_KF=1 in the environment drops the exclusion (to check a fix of the finding: every obligation must then still be discharged)
+        'defines': [],   # finding KF-C17-1 is fixed in /repo: nothing is excluded any more
         'config': {'empty_regex': ['^_ZN[0-9]+[A-Za-z]*FailureC[12]E']},
         'obligations':
             [restore(0), restore(7), restore(29), restore(1, **TH), restore(16, **TH), restore(28, **TH)] +
